@@ -383,4 +383,8 @@ def find_scheme(
     both the version and annotation matching the given version (a basic
     scheme).  Returns an instance of the scheme."""
     cls = find_scheme_class(version=version, annotation=annotation)
-    return cls() if cls else None
+    # the "no restrictions" pseudo-scheme has no columns of its own: it can only
+    # be built from the column names of a file, so it is not "found" here
+    if cls is None or cls is NoRestrictionsScheme:
+        return None
+    return cls()
